@@ -86,6 +86,7 @@ class LineReplayer:
                 dirty = False
             c = call_from_compact(row["c"])
             exp = row["out"]
+            u.via_function = (self.stats["calls"] % 2 == 1)
             got = u.apply(c)
             real = u.project()
             self.stats["calls"] += 1
